@@ -30,6 +30,8 @@ func checkC09(c *Ctx) {
 	c.Rule("C09-R5", "every control string the screen emits, for every ECMA-48-family database entry, tokenizes as complete control sequences with numeric parameters and no residue")
 	c.Rule("C09-R6", "integer arguments of TParm calls in the screen are provably non-negative")
 	c.Rule("C09-R7", "go-runewidth's EastAsianWidth is switched off at init unless RUNEWIDTH_EASTASIAN is set; no other store to that condition")
+	c.Rule("C09-R9", "encoder output is appended to the cell payload only where its first byte was tested against SUB (0x1a), for every encoder call in encodeRune (primary and combining runes alike)")
+	c.Expect("C09-R9", 1)
 	c.Rule("C09-R8", "TPuts removes every terminated padding specification with exactly its delimiters (so that no $<…> residue reaches the terminal from the database strings, which the emission check strips the same way)")
 	c.Expect("C09-R8", 6)
 	c.Expect("C09-R1", 1)
@@ -62,6 +64,7 @@ func checkC09(c *Ctx) {
 	c09Args(c, p)
 	c09Runewidth(c, p)
 	tputsSegmentsRule(c, p, "C09-R8")
+	c09Sub(c, p)
 }
 
 func c09Encapsulation(c *Ctx, p *Prog) {
@@ -727,4 +730,71 @@ func c09Runewidth(c *Ctx, p *Prog) {
 	}
 	sort.Strings(stores)
 	c.Check(okInit && len(stores) == 1, "C09-R7", "runewidth:EastAsianWidth-off", "-", fmt.Sprintf("stores to EastAsianWidth: %v", stores))
+}
+
+// c09Sub: charmap encoders of gdamore/encoding substitute SUB (0x1a), a C0
+// control, for what they cannot represent.  Each use of an encoder's output
+// must therefore sit behind the false edge of `out[0] == 0x1a`.
+func c09Sub(c *Ctx, p *Prog) {
+	fn := p.Fn("tcell:(*tScreen).encodeRune")
+	if fn == nil {
+		c.Undecided("C09-R9", "encodeRune", "-", "not found")
+		return
+	}
+	n := 0
+	eachInstr(fn, func(in ssa.Instruction) {
+		cc := callCommon(in)
+		if cc == nil || !cc.IsInvoke() || cc.Method.Name() != "Transform" || len(cc.Args) != 3 {
+			return
+		}
+		n++
+		dst := cc.Args[0]
+		// uses of the destination as a source of bytes: slices of it flowing into append
+		bad := ""
+		uses := 0
+		eachInstr(fn, func(u ssa.Instruction) {
+			sl, ok := u.(*ssa.Slice)
+			if !ok || (sl.X != dst && sliceRoot(sl.X) != sliceRoot(dst)) || u == ssa.Instruction(nil) {
+				return
+			}
+			if sl == dst {
+				return
+			}
+			isAppendArg := false
+			for _, r := range referrers(sl) {
+				if call, ok := r.(*ssa.Call); ok {
+					if b, ok := call.Call.Value.(*ssa.Builtin); ok && b.Name() == "append" {
+						isAppendArg = true
+					}
+				}
+			}
+			if !isAppendArg {
+				return
+			}
+			uses++
+			guarded := false
+			for _, g := range rawGuardsAt(u.Block()) {
+				bo, ok := g.Cond.(*ssa.BinOp)
+				if !ok {
+					continue
+				}
+				if k, ok := constInt(bo.Y); !ok || k != 0x1a {
+					continue
+				}
+				if encNorm(bo.X) != "out[0]" {
+					continue
+				}
+				if (bo.Op == token.EQL && !g.Positive) || (bo.Op == token.NEQ && g.Positive) {
+					guarded = true
+				}
+			}
+			if !guarded {
+				bad += "encoder output appended at " + p.pos(u.Pos()) + " without the SUB test; "
+			}
+		})
+		c.Check(bad == "" && uses > 0, "C09-R9", fmt.Sprintf("encodeRune:encoder-call#%d:sub-tested", n), p.pos(in.Pos()), fmt.Sprintf("%d use(s) of the encoder's output, each behind `out[0] != 0x1a` %s", uses, bad))
+	})
+	if n == 0 {
+		c.Undecided("C09-R9", "encodeRune:encoder-call", p.pos(fn.Pos()), "no Transform call")
+	}
 }
